@@ -8,6 +8,17 @@ AllSchemes == {"http", "https", "ws", "wss", "other"}
 \* with and without the others); thorough: every subset
 QuickHdrSets    == {{}, Hdrs, {"connection", "upgrade", "te"}, {"keep-alive", "proxy-connection", "transfer-encoding"}}
 ThoroughHdrSets == SUBSET Hdrs
+\* pooled-history vectors (kind "seq"), replayed through the REAL hyperdriver::Client::builder() stack
+ClientAlpns == {"notls", "noalpn", "http/1.1", "h2"}   \* what a real TLS peer can be made to negotiate
+QuickSeqDom == [alpn |-> {"notls", "http/1.1", "h2"}, method |-> {"GET", "CONNECT"}, scheme |-> {"http", "https"},
+                host |-> {"name", "v6"}, port |-> {"absent", "other"}, path |-> {"empty", "long"}, hdrs |-> {{}, Hdrs}]
+ThoroughSeqDom == [alpn |-> ClientAlpns, method |-> AllMethods, scheme |-> AllSchemes, host |-> HostKinds,
+                   port |-> Ports, path |-> Paths, hdrs |-> QuickHdrSets]
+\* the earlier request of a seq run: a plain GET with version prv to the same origin, judged like an e2e run
+FirstVec(v) == [kind |-> "req", conn |-> ExpProto([rv |-> v.prv, alpn |-> v.alpn]), rv |-> v.prv, method |-> "GET",
+                scheme |-> v.scheme, host |-> v.host, port |-> v.port, path |-> "long", query |-> TRUE,
+                preset |-> "none", hdrs |-> {}]
+SeqLine(v) == [v |-> v, first |-> FirstVec(v), exp |-> Expected(v)]
 
 \* _gen: TLC writes every vector of the configured cross product, with the expected outcome, as one
 \* JSON object per line into the file named by the environment variable GEN_OUT.
@@ -19,11 +30,14 @@ E2ePairs(F(_)) == {p \in {r \in ReqVectors : F(r)} \X Alpns : ExpProto([rv |-> p
 E2eLine(p) == [v |-> p[1], alpn |-> p[2], exp |-> Expected(p[1])]
 E2eQuick(r)    == r.hdrs \in {{}, Hdrs} /\ r.method \in {"GET", "CONNECT"} /\ r.scheme \in {"http", "https"}
 E2eThorough(r) == r.hdrs \in QuickHdrSets
-GenSeq(F(_)) == LET s == SetToSeq(Vectors)
+GenSeq(F(_)) == LET s == SetToSeq(ReqVectors \cup SelVectors)
                     e == SetToSeq(E2ePairs(F))
+                    q == SetToSeq(SeqVectors)
                 IN  [i \in 1..Len(s) |-> GenLine(s[i])] \o [i \in 1..Len(e) |-> E2eLine(e[i])]
+                    \o [i \in 1..Len(q) |-> SeqLine(q[i])]
 GenDump(F(_)) == /\ ndJsonSerialize(IOEnv.GEN_OUT, GenSeq(F))
-                 /\ PrintT(<<"GENERATED", Cardinality(ReqVectors), Cardinality(SelVectors), Cardinality(E2ePairs(F))>>)
+                 /\ PrintT(<<"GENERATED", Cardinality(ReqVectors), Cardinality(SelVectors), Cardinality(E2ePairs(F)),
+                             Cardinality(SeqVectors)>>)
                  /\ vec = [kind |-> "sel", rv |-> "1.1", alpn |-> "notls"] /\ stage = "new" /\ req = [proto |-> "none"]
 GenInitQuick    == GenDump(E2eQuick)
 GenInitThorough == GenDump(E2eThorough)
